@@ -321,6 +321,8 @@ def interp (id : Nat) (v : Val) : Option Nat :=
     else if id == 2 then (match v with | .leaf (.str _) => true | _ => false)
     else if id == 3 then (match v with | .leaf (.int n) => decide (n > 5) | _ => false)
     else if id == 5 then true
+    else if id == 6 then v.isStack
+    else if id == 7 then v.isCond
     else false
   if rej then some (100 + id) else none
 
